@@ -146,3 +146,18 @@ CHECKS['C10'] = dict(
          'lists; attachments of equal name/size across repeated phase records; every value with <=2 constructors from the stated '
          'family as scalar and dimensioned value: OutputToJSON must be strict JSON decoding to the rendering, attachments byte-exact.',
     note='The station server itself (tornado) is not importable here; its data source TestState.as_base_types() is checked instead.')
+
+ENGINES.append({'name': 'sched', 'path': 'vf/sched', 'kind_free_text':
+    'stateless exploration of the real multithreaded code under a controlled scheduler: threading.Lock/RLock/Event/Condition, '
+    'Thread.start/join/is_alive, time and PyThreadState_SetAsyncExc are replaced per execution; sys.monitoring LINE events of focus '
+    'functions are scheduling points; DFS over scheduling choices with iterative preemption/clock-deviation bounding; virtual time',
+    'serves_properties': ['C03', 'C04', 'C09', 'C11', 'C12', 'C13', 'C14', 'C18', 'C19']})
+CHECKS['C18'] = dict(
+    engine='sched', level='model_checking', design_ref='DESIGN.md#c18',
+    technique='stateless schedule exploration (preemption-bounded DFS) of the real mixin / TestState under a controlled scheduler',
+    text='(P) a counter object built on the real SubscribableStateMixin with 1-2 watchers (final-read and snapshot-then-wait styles) and '
+         '1-2 updaters: all interleavings at line granularity up to the preemption bound; oracle: a watcher whose snapshot is stale holds '
+         'a set event that stays set, a looping watcher always reaches the final state, no watcher blocks forever (deadlock detection). '
+         '(S) a real TestState finalized through abort / STOP / timeout / exception / normal with a looping watcher. (R) a watcher thread '
+         'attached to whole Test.execute() runs ending PASS / STOP / exception.',
+    note='Line-level preemption in the mixin and the TestState status methods; primitive-operation level elsewhere; bounds in evidence.')
